@@ -1,5 +1,5 @@
 (* C02Proofs.v — lemmas behind props/C02.v *)
-From SV Require Import Base Json MD5 Canon FS Ws WsLemmas CorrC02.
+From SV Require Import Base Json MD5 Canon FS Ws WsLemmas WsInit CorrC02.
 
 (* ------------------------------------------------------------------ id / prefix resolution *)
 Lemma filter_all_eq : forall (P : str -> bool) (ids : list str) m,
@@ -172,39 +172,6 @@ Section S.
     rewrite Hl. simpl in *. tauto.
   Qed.
 
-  (* load_file only looks at the file system, the project root and the handle's id *)
-  Lemma load_file_ext : forall w w' h h',
-    w_fs w = w_fs w' -> s_root (getS w (h_s h)) = s_root (getS w' (h_s h')) -> h_id h = h_id h' ->
-    load_file frepr w h = load_file frepr w' h'.
-  Proof.
-    intros w w' h h' Hf Hr Hi. unfold load_file, spfile, jobdir, wsp. rewrite Hf, Hr, Hi. reflexivity.
-  Qed.
-
-  Lemma sp_access_len : forall w h, length (w_hs (fst (sp_access frepr w h))) = length (w_hs w).
-  Proof.
-    intros w h. unfold sp_access.
-    destruct (h_cell (getH w h)); [reflexivity|].
-    destruct (h_cached (getH w h)); [simpl; apply length_set_nth|].
-    destruct (load_file frepr w (getH w h)); simpl; [apply length_set_nth|reflexivity].
-  Qed.
-
-  (* after a successful access the handle owns the returned cell, and id / project are untouched *)
-  Lemma sp_access_cell : forall w h w1 ci,
-    (h < length (w_hs w))%nat -> sp_access frepr w h = (w1, inl ci) ->
-    h_cell (getH w1 h) = Some ci /\ h_id (getH w1 h) = h_id (getH w h) /\ h_s (getH w1 h) = h_s (getH w h).
-  Proof.
-    intros w h w1 ci Hlt H. unfold sp_access in H.
-    destruct (h_cell (getH w h)) eqn:Ec.
-    - inversion H; subst. auto.
-    - destruct (h_cached (getH w h)) eqn:Ecd.
-      + inversion H; subst. rewrite getH_set_H_same by exact Hlt. auto.
-      + destruct (load_file frepr w (getH w h)); inversion H; subst.
-        rewrite getH_set_H_same by exact Hlt. auto.
-  Qed.
-
-  Lemma sp_access_idem : forall w h ci, h_cell (getH w h) = Some ci -> sp_access frepr w h = (w, inl ci).
-  Proof. intros w h ci H. unfold sp_access. rewrite H. reflexivity. Qed.
-
   (* init_post (file part): whenever init returns normally, the state point file exists, parses, and
      hashes to the handle's id; the handle owns a cell *)
   Lemma init_ok_valid : forall susp force w h w',
@@ -215,10 +182,10 @@ Section S.
     intros susp force w h w' Hlt H. unfold init in H.
     destruct (sp_access frepr w h) as [w1 r] eqn:E1.
     assert (Hlen1 : length (w_hs w1) = length (w_hs w)).
-    { pose proof (sp_access_len w h) as Hl. rewrite E1 in Hl. exact Hl. }
+    { pose proof (sp_access_len frepr w h) as Hl. rewrite E1 in Hl. exact Hl. }
     assert (Hid1 : h_id (getH w1 h) = h_id (getH w h) /\ h_s (getH w1 h) = h_s (getH w h)).
     { destruct r as [ci|e].
-      - destruct (sp_access_cell w h w1 ci Hlt E1) as [_ [? ?]]. auto.
+      - destruct (sp_access_cell frepr w h w1 ci Hlt E1) as [_ [? ?]]. auto.
       - unfold sp_access in E1. destruct (h_cell (getH w h)); [discriminate|].
         destruct (h_cached (getH w h)); [discriminate|].
         destruct (load_file frepr w (getH w h)); inversion E1; subst; auto. }
@@ -227,7 +194,7 @@ Section S.
     destruct r as [ci|e].
     - destruct (load_file frepr w1 (getH w1 h)) as [v|e] eqn:El.
       + inversion H; subst. clear H.
-        destruct (sp_access_cell w h w1 ci Hlt E1) as [Hc _].
+        destruct (sp_access_cell frepr w h w1 ci Hlt E1) as [Hc _].
         repeat split; [exists v|exists ci|]; auto.
       + (* late path, cell known *)
         revert H. 
@@ -235,12 +202,12 @@ Section S.
         set (w2 := set_H (set_fs w1 f2 e2) h _).
         destruct (sp_access frepr w2 h) as [w3 r3] eqn:E3.
         destruct r3 as [ci3|e3]; [|discriminate].
-        destruct (if _ then _ else _) as [[f4 e4]|e4]; [|discriminate].
+        match goal with |- match ?X with FOk _ => _ | FErr _ => _ end = _ -> _ => destruct X as [[f4 e4]|e4]; [|discriminate] end.
         destruct (load_file frepr (set_fs w3 f4 e4) (getH w3 h)) as [v|ee] eqn:El4; [|discriminate].
         intro H. inversion H; subst. clear H.
         assert (Hlt2 : (h < length (w_hs w2))%nat).
         { unfold w2, set_H, set_fs. simpl. rewrite length_set_nth. lia. }
-        destruct (sp_access_cell w2 h w3 ci3 Hlt2 E3) as [Hc3 [Hid3 Hs3]].
+        destruct (sp_access_cell frepr w2 h w3 ci3 Hlt2 E3) as [Hc3 [Hid3 Hs3]].
         assert (Hid2 : h_id (getH w2 h) = h_id (getH w1 h)).
         { unfold w2. rewrite getH_set_H_same by (simpl; lia). reflexivity. }
         repeat split.
@@ -255,12 +222,12 @@ Section S.
       set (w2 := set_H (set_fs w1 f2 e2) h _).
       destruct (sp_access frepr w2 h) as [w3 r3] eqn:E3.
       destruct r3 as [ci3|e3]; [|discriminate].
-      destruct (if _ then _ else _) as [[f4 e4]|e4]; [|discriminate].
+      match goal with |- match ?X with FOk _ => _ | FErr _ => _ end = _ -> _ => destruct X as [[f4 e4]|e4]; [|discriminate] end.
       destruct (load_file frepr (set_fs w3 f4 e4) (getH w3 h)) as [v|ee] eqn:El4; [|discriminate].
       intro H. inversion H; subst. clear H.
       assert (Hlt2 : (h < length (w_hs w2))%nat).
       { unfold w2, set_H, set_fs. simpl. rewrite length_set_nth. lia. }
-      destruct (sp_access_cell w2 h w3 ci3 Hlt2 E3) as [Hc3 [Hid3 Hs3]].
+      destruct (sp_access_cell frepr w2 h w3 ci3 Hlt2 E3) as [Hc3 [Hid3 Hs3]].
       assert (Hid2 : h_id (getH w2 h) = h_id (getH w1 h)).
       { unfold w2. rewrite getH_set_H_same by (simpl; lia). reflexivity. }
       repeat split.
@@ -280,6 +247,62 @@ Section S.
   Proof.
     intros susp force susp' force' w h w' Hlt H.
     destruct (init_ok_valid susp force w h w' Hlt H) as [[v Hv] [[ci Hc] _]].
-    apply init_valid_no_write. rewrite (sp_access_idem w' h ci Hc). eauto.
+    apply init_valid_no_write. rewrite (sp_access_idem frepr w' h ci Hc). eauto.
+  Qed.
+
+  (* init_post for a fresh job: the directory, the exact file, and the frame *)
+  Lemma init_fresh_post : forall w h sp,
+    (h < length (w_hs w))%nat ->
+    h_cell (getH w h) = None -> h_cached (getH w h) = Some sp -> h_id (getH w h) = calc_id frepr sp ->
+    let wsd := wsp (getS w (h_s (getH w h))) in
+    let jd := wsd ++ [h_id (getH w h)] in
+    (forall k, (k <= length wsd)%nat -> get (w_fs w) (firstn k wsd) = Some Dir) ->
+    (forall q, under jd q = true -> get (w_fs w) q = None) ->
+    exists w', init frepr false false w h = (w', inl tt) /\
+      get (w_fs w') jd = Some Dir /\
+      get (w_fs w') (jd ++ [SPF]) = Some (File (sp_content frepr sp)) /\
+      valid_job frepr (w_fs w') wsd (h_id (getH w h)) sp /\
+      (forall q, q <> jd -> q <> jd ++ [SPF] -> get (w_fs w') q = get (w_fs w) q).
+  Proof.
+    intros w h sp Hlt Hcell Hcached Hid wsd jd Hchain Hfree.
+    assert (E1 : exists w1, sp_access frepr w h = (w1, inl (length (w_cs w))) /\ c_data (getC w1 (length (w_cs w))) = sp).
+    { unfold sp_access. rewrite Hcell, Hcached. eexists. split; [reflexivity|].
+      rewrite getC_set_H. unfold getC, add_C. simpl. rewrite nth_app_new. reflexivity. }
+    destruct E1 as [w1 [E1 Hd]].
+    destruct (init_writes frepr w h w1 _ sp Hlt E1 Hd (eq_sym Hid)) as [w' [Hi [G _]]].
+    - apply Hfree. apply under_app.
+    - apply Hfree. apply under_app.
+    - right. split; [apply Hfree; apply under_refl|exact Hchain].
+    - fold wsd jd in G. exists w'. split; [exact Hi|].
+      assert (Hne : path_eqb jd (jd ++ [SPF]) = false).
+      { apply path_eqb_neq. intro E. symmetry in E. exact (snoc_neq_self _ _ E). }
+      assert (Gjd : get (w_fs w') jd = Some Dir) by (rewrite G, Hne, path_eqb_refl; reflexivity).
+      assert (Gf : get (w_fs w') (jd ++ [SPF]) = Some (File (sp_content frepr sp))) by (rewrite G, path_eqb_refl; reflexivity).
+      split; [exact Gjd|]. split; [exact Gf|]. split.
+      + unfold valid_job. split; [exact Gjd|]. exists (sp_content frepr sp).
+        replace (wsd ++ [h_id (getH w h); SPF]) with (jd ++ [SPF]) by (unfold jd; rewrite <- app_assoc; reflexivity).
+        split; [exact Gf|]. split; [reflexivity|]. symmetry. exact Hid.
+      + intros q H1 H2. rewrite G. apply path_eqb_neq in H1, H2. rewrite H2, H1. reflexivity.
+  Qed.
+
+  (* a fresh session (empty cache) finds an initialised job by anything that resolves to its id, and
+     reads back exactly the state point stored in the file *)
+  Lemma open_id_finds : forall w si x i sp,
+    alookup x (s_cache (getS w si)) = None ->
+    resolve (w_fs w) (wsp (getS w si)) x = inl i ->
+    valid_job frepr (w_fs w) (wsp (getS w si)) i sp ->
+    exists w1 h, open_id w si x = (w1, inl h) /\ h_id (getH w1 h) = i /\
+                 snd (sp_read frepr w1 h) = inl sp /\ w_fs w1 = w_fs w.
+  Proof.
+    intros w si x i sp Hc Hr [Hdir [c [Hf [Hj Hh]]]].
+    unfold open_id. rewrite Hc, Hr. eexists _, _. split; [reflexivity|].
+    assert (Hh' : getH (add_H w (mkH si i None None true)) (length (w_hs w)) = mkH si i None None true).
+    { unfold getH, add_H. simpl. apply nth_app_new. }
+    split; [rewrite Hh'; reflexivity|]. split; [|reflexivity].
+    unfold sp_read, sp_access. rewrite Hh'. simpl.
+    unfold load_file, spfile, jobdir. simpl. rewrite getS_add_H. rewrite <- app_assoc. simpl.
+    change (w_fs (add_H w (mkH si i None None true))) with (w_fs w).
+    rewrite Hf, Hj, Hh, str_eqb_refl. simpl.
+    rewrite getC_set_H, getC_register. unfold getC, add_C. simpl. rewrite nth_app_new. reflexivity.
   Qed.
 End S.
